@@ -24,7 +24,7 @@ ASSUMPTIONS = [
 def flows_table():
     return {
         "check::do_distribute_descriptions": {
-            ("Terminal", "descr"): ("the pending description (parameter)", lambda p: p[0] == "param" and p[2] == "description"),
+            ("Terminal", "descr"): ("the pending description (parameter)", lambda p: p[0] == "param" and p[1] == 2),  # third parameter: `&mut Option<Ustr>` (position, not name)
         },
         "check::do_propagate_fallback_levels": {
             # the level is the third parameter (position, not name)
